@@ -112,7 +112,7 @@ def tla_value(v):
 
 
 def write_cfg(path, spec="Spec", constants=None, invariants=(), constraints=(), properties=(), view=None,
-              action_constraints=(), postcondition=None, init=None, nxt=None):
+              action_constraints=(), postcondition=None, init=None, nxt=None, overrides=None):
     lines = []
     if init:
         lines += ["INIT " + init, "NEXT " + nxt]
@@ -122,6 +122,11 @@ def write_cfg(path, spec="Spec", constants=None, invariants=(), constraints=(), 
         lines.append("CONSTANTS")
         for k, v in constants.items():
             lines.append("  %s = %s" % (k, tla_value(v)))
+    if overrides:
+        if not constants:
+            lines.append("CONSTANTS")
+        for k, v in overrides.items():
+            lines.append("  %s <- %s" % (k, v))
     for i in invariants:
         lines.append("INVARIANT " + i)
     for c in constraints:
@@ -251,7 +256,7 @@ def read_ndjson(path):
     return out
 
 
-def validate_trace(ctx, trace_module, trace_path, constants, shards=None, timeout=3600, extra_cfg=None):
+def validate_trace(ctx, trace_module, trace_path, constants, shards=None, timeout=3600, extra_cfg=None, files=()):
     """Split the trace into shards and validate each with its own TLC (workers=1). Returns CLS records."""
     with open(trace_path) as f:
         lines = [l for l in f if l.strip()]
@@ -272,7 +277,7 @@ def validate_trace(ctx, trace_module, trace_path, constants, shards=None, timeou
         kw = dict(constants=constants)
         if extra_cfg:
             kw.update(extra_cfg)
-        r = run_tlc(ctx, trace_module, kw, workers=1, workdir=wd, timeout=timeout, heap="3g", cpus=2)
+        r = run_tlc(ctx, trace_module, kw, workers=1, workdir=wd, timeout=timeout, heap="3g", cpus=2, files=files)
         if r.violated or r.error:
             raise Infra("trace validation failed in %s: %s (see %s)" % (trace_module, r.violated or r.error, r.out_path))
         cls = [x for x in r.records if x.get("t") == "CLS"]
